@@ -195,6 +195,11 @@ func (e *Engine) invokeUnknown(f *frame, st *State, cc *ssa.CallCommon, recv Val
 	if ct := e.W.Contracts["iface "+key]; ct != nil {
 		return e.applyContract(f, st, ct, nil, cc.Signature(), append([]Val{recv}, args...), rt, pos, key)
 	}
+	// methods that return a constant in every implementer (GetOpCode, IsResponse, ...) are pure functions of the
+	// dynamic type: f(tag), with f(tag_T) = the constant T's method returns
+	if v, ok := e.constMethod(st, cc, recv, rt); ok {
+		return v
+	}
 	// repo interface: effect = union of implementers' mod sets
 	ms := e.W.invokeModSet(cc.Value.Type(), cc.Method)
 	e.note("interface method " + key + " without contract: results unconstrained, mod-set of all implementers havocked")
@@ -470,4 +475,75 @@ func (e *Engine) copyModel(f *frame, st *State, cc *ssa.CallCommon, args []Val, 
 		st.Heap[name] = c.Store(arr, dst.Terms[0], c.App("arr.splice."+sortTag(so), as, c.Select(arr, dst.Terms[0]), dst.Terms[1], srcInner, srcOff, n))
 	}
 	return Val{Typ: rt, Terms: []*smt.Term{n}}
+}
+
+// constMethod models an interface method all of whose repository implementers are "return <constant>".
+func (e *Engine) constMethod(st *State, cc *ssa.CallCommon, recv Val, rt types.Type) (Val, bool) {
+	if len(cc.Args) != 0 {
+		return Val{}, false
+	}
+	return e.constMethodFor(cc.Value.Type(), cc.Method, recv, rt)
+}
+
+func (e *Engine) constMethodFor(ifaceT types.Type, method *types.Func, recv Val, rt types.Type) (Val, bool) {
+	if externalIface(ifaceT) {
+		return Val{}, false
+	}
+	sorts := e.comps(rt)
+	if len(sorts) != 1 {
+		return Val{}, false
+	}
+	it := types.Unalias(ifaceT).Underlying().(*types.Interface)
+	impls := e.W.implementers(it)
+	if len(impls) == 0 {
+		return Val{}, false
+	}
+	type entry struct {
+		t types.Type
+		c *ssa.Const
+	}
+	var table []entry
+	for _, t := range impls {
+		fn := e.W.Prog.LookupMethod(t, method.Pkg(), method.Name())
+		if fn == nil {
+			return Val{}, false
+		}
+		for fn.Synthetic != "" && len(fn.Blocks) > 0 {
+			// wrapper (*T).m around (T).m: follow the single call
+			var callee *ssa.Function
+			for _, in := range fn.Blocks[0].Instrs {
+				if call, ok := in.(*ssa.Call); ok {
+					callee = call.Call.StaticCallee()
+				}
+			}
+			if callee == nil || callee == fn {
+				break
+			}
+			fn = callee
+		}
+		if len(fn.Blocks) != 1 {
+			return Val{}, false
+		}
+		ret, ok := fn.Blocks[0].Instrs[len(fn.Blocks[0].Instrs)-1].(*ssa.Return)
+		if !ok || len(ret.Results) != 1 {
+			return Val{}, false
+		}
+		k, ok := ret.Results[0].(*ssa.Const)
+		if !ok {
+			return Val{}, false
+		}
+		table = append(table, entry{t, k})
+	}
+	name := "const." + typeStr(ifaceT) + "." + method.Name()
+	if !e.constTables[name] {
+		if e.constTables == nil {
+			e.constTables = map[string]bool{}
+		}
+		e.constTables[name] = true
+		for _, en := range table {
+			e.assumeGlobal(e.C.Eq(e.C.App(name, sorts[0], e.C.IntLit(int64(e.typeTag(en.t)))), e.constVal(en.c).Terms[0]))
+		}
+		e.note("interface method " + name[6:] + " returns a constant in every repository implementer; modelled as a function of the dynamic type (implementers outside the repository are not considered)")
+	}
+	return Val{Typ: rt, Terms: []*smt.Term{e.C.App(name, sorts[0], recv.Terms[0])}}, true
 }
